@@ -32,6 +32,13 @@ static int32 expiryForgivingCb(ssl_t *ssl, psX509Cert_t *cert, int32 alert)
     return alert;
 }
 
+/* what the adversary / peer presents, and what the client expects */
+static const char *g_chain = CERTS "leaf3_chain.pem";
+static const char *g_key = CERTS "leaf3_key.pem";
+static const char *g_name = "victim.example.com";
+static sslCertCb_t g_cb = NULL;
+static int g_lastComplete, g_lastAlert;
+
 static int run(const char *label, psProtocolVersion_t ver, int revalidate)
 {
     sslKeys_t *vKeys = NULL, *aKeys;
@@ -57,8 +64,7 @@ static int run(const char *label, psProtocolVersion_t ver, int revalidate)
         return -1;
     }
     /* expired leaf for victim.example.com under a self-made root */
-    aKeys = adversaryEcKeys(CERTS "leaf3_chain.pem", CERTS "leaf3_key.pem",
-            NULL);
+    aKeys = adversaryEcKeys(g_chain, g_key, NULL);
     if (aKeys == NULL)
     {
         return -1;
@@ -77,7 +83,7 @@ static int run(const char *label, psProtocolVersion_t ver, int revalidate)
     }
     matrixSslNewSessionId(&sid, NULL);
     rc = matrixSslNewClientSession(&cli.ssl, vKeys, sid, NULL, 0,
-            expiryForgivingCb, "victim.example.com", NULL, NULL, &vOpts);
+            g_cb ? g_cb : expiryForgivingCb, g_name, NULL, NULL, &vOpts);
     if (rc < 0)
     {
         printf("NewClientSession %d\n", rc);
@@ -87,6 +93,8 @@ static int run(const char *label, psProtocolVersion_t ver, int revalidate)
     pump(&cli, &svr);
 
     bad = cli.complete && matrixSslHandshakeIsComplete(cli.ssl);
+    g_lastComplete = bad;
+    g_lastAlert = g_cbAlert[0];
     printf("%-44s %s client: complete=%d alert-sent-to-peer=%d "
         "callback-calls=%d callback-alert=%d\n", label, verName(cli.ssl),
         cli.complete, svr.alertDesc, g_cbCalls[0], g_cbAlert[0]);
@@ -101,7 +109,7 @@ static int run(const char *label, psProtocolVersion_t ver, int revalidate)
 
 int main(void)
 {
-    int v = 0, r;
+    int v = 0, r, i, ctl = 0;
     psX509Cert_t *chain = NULL, *ca = NULL, *found = NULL, *c;
     matrixValidateCertsOptions_t o;
 
@@ -140,7 +148,79 @@ int main(void)
         printf("VIOLATION: (unexpected) accepted without the flag\n");
         v++;
     }
+    /* Controls: the feature itself must keep working */
+    chain = ca = NULL;
+    psX509ParseCertFile(NULL, CERTS "leaf4.pem", &chain, 0);
+    psX509ParseCertFile(NULL, TK "EC/256_EC_CA.pem", &ca, 0);
+    r = matrixValidateCertsExt(NULL, chain, ca, "victim.example.com", &found,
+            NULL, NULL, &o);
+    printf("matrixValidateCertsExt([expired leaf under the TRUSTED CA], "
+        "REVALIDATE_DATES) = %d; authStatus=%d flags=0x%x\n", r,
+        chain->authStatus, (unsigned) chain->authFailFlags);
+    if (r != PS_CERT_AUTH_FAIL_EXTENSION ||
+        chain->authStatus != PS_CERT_AUTH_FAIL_EXTENSION ||
+        chain->authFailFlags != PS_CERT_AUTH_FAIL_DATE_FLAG)
+    {
+        printf("CONTROL FAILED: an expired-only chain must still be reported "
+            "as a date failure (negative return code)\n");
+        ctl++;
+    }
+    psX509FreeCert(chain);
+    psX509FreeCert(ca);
+
+    g_chain = CERTS "leaf4.pem";
+    g_key = CERTS "leaf4_key.pem";
+    for (i = 0; i < 2; i++)
+    {
+        r = run("control: only expired, trusted CA, forgiving cb",
+                i ? v_tls_1_2 : v_tls_1_3, 1);
+        if (r <= 0 || g_lastAlert != SSL_ALERT_CERTIFICATE_EXPIRED)
+        {
+            printf("CONTROL FAILED: an expired-only chain must reach the "
+                "callback as certificate_expired and the override must "
+                "work\n");
+            ctl++;
+        }
+        g_cb = strictCb;
+        r = run("control: only expired, trusted CA, strict cb",
+                i ? v_tls_1_2 : v_tls_1_3, 1);
+        if (r != 0 || g_lastAlert != SSL_ALERT_CERTIFICATE_EXPIRED)
+        {
+            printf("CONTROL FAILED: expired-only chain with a strict callback "
+                "must fail with certificate_expired\n");
+            ctl++;
+        }
+        g_cb = NULL;
+    }
+    g_chain = TK "EC/256_EC.pem";
+    g_key = TK "EC/256_EC_KEY.pem";
+    g_name = "localhost";
+    g_cb = strictCb;
+    for (i = 0; i < 2; i++)
+    {
+        r = run("control: honest valid chain, strict cb",
+                i ? v_tls_1_2 : v_tls_1_3, 1);
+        if (r <= 0 || g_lastAlert != 0)
+        {
+            printf("CONTROL FAILED: honest handshake with REVALIDATE_DATES\n");
+            ctl++;
+        }
+    }
+    g_chain = CERTS "leaf3_chain.pem";
+    g_key = CERTS "leaf3_key.pem";
+    g_name = "victim.example.com";
+    g_cb = NULL;
+    if (ctl == 0)
+    {
+        printf("CONTROLS OK\n");
+    }
+
     r = run("expiry-forgiving cb, REVALIDATE_DATES", v_tls_1_3, 1);
+    if (r == 0)
+    {
+        printf("OK: TLS 1.3 callback was told %d, handshake refused\n",
+            g_lastAlert);
+    }
     if (r > 0)
     {
         printf("VIOLATION: TLS 1.3 client: callback that only tolerates "
@@ -149,6 +229,11 @@ int main(void)
         v++;
     }
     r = run("expiry-forgiving cb, REVALIDATE_DATES", v_tls_1_2, 1);
+    if (r == 0)
+    {
+        printf("OK: TLS 1.2 callback was told %d, handshake refused\n",
+            g_lastAlert);
+    }
     if (r > 0)
     {
         printf("VIOLATION: TLS 1.2 client: callback that only tolerates "
@@ -157,5 +242,9 @@ int main(void)
         v++;
     }
     matrixSslClose();
+    if (ctl)
+    {
+        return 3;
+    }
     return v ? 1 : 0;
 }
